@@ -3,6 +3,7 @@ import common
 import wire
 
 LEVEL = 'proof'
+TRUSTED_EXTRA = ['harness/pytrans.py: fail-closed translator hpfeeds/protocol.py -> coq/ProtoGen.v (regenerated on every run) and coq/PyPrim.v, its reading of the Python fragment used there (dynamic values, slices, struct.pack/unpack for !B and !iB, len of a str = code points, exceptions); the translated text is proved equal to the hand-written Wire.v in coq/ProtoGenEq.v, and the *_src_* theorems are about the translated text']
 ASSUMPTIONS = ['non-termination of the code shows up as the driver\'s iteration watchdog (more yields than bytes/5)']
 
 
@@ -23,6 +24,20 @@ def gen_cases(ctx):
             if rng.random() < 0.35:
                 d = h + tail
                 out.append(([d[i:i + 1] for i in range(len(d))], 'lattice bytewise'))
+    # declared lengths around every limit WITH the whole announced body already there when the header completes (one read,
+    # header split from the body, pipelined behind a valid frame): the verdict must not depend on how much has arrived
+    for op in range(6):
+        lim = wire.limit(op)
+        for ml in (lim - 1, lim, lim + 1, lim + 2, lim + 5, lim + 300):
+            if ml < 5:
+                continue
+            if ml > 2000 and rng.random() < (0.85 if ctx.tier == 'quick' else 0.3) * (0 if ctx.scale > 1 else 1):
+                continue
+            body = bytes([rng.randrange(32, 127)]) * (ml - 5)
+            fr = wire.be32s(ml) + bytes([op]) + body
+            pre = wire.gen_frame(rng)[2]
+            for chunks in ([fr], [fr[:3], fr[3:]], [fr[:5], fr[5:]], [pre + fr], [pre[:2], pre[2:] + fr + b'\x00\x00']):
+                out.append((list(chunks), 'limit+body'))
     for _ in range(ctx.n(250, 6000)):
         k = rng.random()
         if k < 0.3:
@@ -46,7 +61,7 @@ def gen_cases(ctx):
 def run(ctx, res):
     res.rule = ('5-byte headers over the lattice ml in {-2^31, .., -1,0,1,4,5,6, limit-1,limit,limit+1, .., 2^31-1} x '
                 'op in {0..7,127,128,255} (exhaustive), alone / with tails / byte-wise; random bytes, valid frames followed '
-                'by a lattice header, mutated valid streams; random chunkings; non-trivial = at least 5 bytes; distinct by '
+                'by a lattice header, mutated valid streams; frames declaring limit-1 .. limit+300 whose whole body is present when the header completes (one read / split header / pipelined); random chunkings; non-trivial = at least 5 bytes; distinct by '
                 '(stream, cut points)')
     cases = []
     for chunks, kind in gen_cases(ctx):
